@@ -8,6 +8,7 @@ import (
 	"encoding/base64"
 	"errors"
 	"fmt"
+	"math/big"
 	"math/rand/v2"
 	"os"
 	"path/filepath"
@@ -431,10 +432,166 @@ func vf04GenFilter(rng *rand.Rand, c *vf04Corpus, key string, first bool) vf04Fi
 	return vf04Filter{Key: key, Op: int(op), Val: v}
 }
 
+// vf04NumKeys are the attributes whose values are (mostly) integers: their plain index is
+// ordered by the text and their integer index by the number, the two orders differ as soon
+// as the values have different lengths or signs.
+var vf04NumKeys = []string{"N", "Num", "A", "B", object.FilterCreationEpoch, object.FilterPayloadSize, object.AttributeExpirationEpoch}
+
+const vf04MinInt = "-115792089237316195423570985008687907853269984665640564039457584007913129639935"
+
+// vf04GenMixedFirst generates queries with SEVERAL conditions of DIFFERENT kinds on the first
+// attribute: a string first filter next to numeric (and != ) ones, a numeric first filter
+// next to string ones.  The index a single search walks – hence its order and the form of
+// its cursor – follows the first filter alone; a merge over shards or nodes and the cursor
+// recalculated from the last merged item have to follow that very filter.
+//
+// Only those shapes are generated whose evaluation by the single search (C03 defect classes
+// "first-attr-multi-condition" included) is decided per index key and so cannot depend on
+// how the objects are spread: further string conditions are != (or the empty prefix, which
+// matches everything), further numeric ones are free next to a string first filter and a
+// well-formed upper bound next to a numeric one.  NOT_PRESENT next to another condition
+// (C03 panic class), second = / non-empty prefix conditions and malformed numeric ranges
+// (they stop the scan of a shard at its first failing key – C03 class "missing") stay out.
+func vf04GenMixedFirst(rng *rand.Rand, c *vf04Corpus) vf04Query {
+	var q vf04Query
+	numFirst := rng.IntN(3) == 0
+	var key string
+	if numFirst || rng.IntN(4) != 0 {
+		key = vf04NumKeys[rng.IntN(len(vf04NumKeys))]
+	} else {
+		for key == "" || key == object.FilterRoot || key == object.FilterPhysical {
+			if rng.IntN(2) == 0 {
+				key = vf04UserKeys[rng.IntN(len(vf04UserKeys))]
+			} else {
+				key = vf04SysKeys[rng.IntN(len(vf04SysKeys))]
+			}
+		}
+	}
+	// whole range of the attribute by default
+	first := vf04Filter{Key: key, Op: int(object.MatchStringNotEqual), Val: "no such value"}
+	if numFirst {
+		first = vf04Filter{Key: key, Op: int(object.MatchNumGE), Val: vf04MinInt}
+	}
+	if rng.IntN(2) == 0 {
+		for try := 0; try < 30; try++ {
+			f := vf04GenFilter(rng, c, key, true)
+			if f.op() != object.MatchNotPresent && vf04IsNum(f.op()) == numFirst {
+				first = f
+				break
+			}
+		}
+	}
+	q.Filters = append(q.Filters, first)
+	numCond := func() vf04Filter {
+		op := []object.SearchMatchType{object.MatchNumGE, object.MatchNumGE, object.MatchNumGT, object.MatchNumGT, object.MatchNumLE, object.MatchNumLT}[rng.IntN(6)]
+		v := vf04IntPool[rng.IntN(len(vf04IntPool))]
+		if rng.IntN(2) == 0 {
+			if op == object.MatchNumGE || op == object.MatchNumGT {
+				v = []string{vf04MinInt, "-18446744073709551616", "-1", "0"}[rng.IntN(4)]
+			} else {
+				v = vf04IntPool[len(vf04IntPool)-3+rng.IntN(3)]
+			}
+		}
+		return vf04Filter{Key: key, Op: int(op), Val: v}
+	}
+	neCond := func() vf04Filter {
+		v := "no such value"
+		if vals := c.values[key]; len(vals) > 0 && rng.IntN(2) == 0 {
+			v = vals[rng.IntN(len(vals))]
+		}
+		return vf04Filter{Key: key, Op: int(object.MatchStringNotEqual), Val: v}
+	}
+	n := 1 + rng.IntN(2)
+	if numFirst {
+		if (first.op() == object.MatchNumGE || first.op() == object.MatchNumGT) && rng.IntN(3) == 0 {
+			q.Filters = append(q.Filters, vf04Filter{Key: key, Op: int([]object.SearchMatchType{object.MatchNumLE, object.MatchNumLT}[rng.IntN(2)]), Val: vf04IntPool[rng.IntN(len(vf04IntPool))]})
+		}
+		for ; n > 0; n-- {
+			if rng.IntN(4) == 0 {
+				q.Filters = append(q.Filters, vf04Filter{Key: key, Op: int(object.MatchCommonPrefix)})
+			} else {
+				q.Filters = append(q.Filters, neCond())
+			}
+		}
+	} else {
+		var hasNum bool
+		for i := 0; i < n; i++ {
+			if rng.IntN(4) != 0 || (i == n-1 && !hasNum) {
+				q.Filters = append(q.Filters, numCond())
+				hasNum = true
+			} else {
+				q.Filters = append(q.Filters, neCond())
+			}
+		}
+	}
+	pickKey := func() string {
+		if rng.IntN(2) == 0 {
+			return vf04UserKeys[rng.IntN(len(vf04UserKeys))]
+		}
+		return vf04SysKeys[rng.IntN(len(vf04SysKeys))]
+	}
+	if rng.IntN(3) == 0 {
+		// a condition on another attribute somewhere behind the first filter
+		k := pickKey()
+		for k == key {
+			k = pickKey()
+		}
+		at := 1 + rng.IntN(len(q.Filters))
+		q.Filters = append(q.Filters, vf04Filter{})
+		copy(q.Filters[at+1:], q.Filters[at:])
+		q.Filters[at] = vf04GenFilter(rng, c, k, false)
+	}
+	if rng.IntN(6) != 0 {
+		q.Attrs = []string{key}
+		for n := rng.IntN(3); n > 0; n-- {
+			k := pickKey()
+			dup := k == object.FilterSplitID
+			for _, a := range q.Attrs {
+				dup = dup || a == k
+			}
+			if !dup {
+				q.Attrs = append(q.Attrs, k)
+			}
+		}
+	}
+	return q
+}
+
+// vf04Mixed names the kind of the further conditions on the first attribute that differ
+// from a plain query or a numeric range.
+func vf04Mixed(q vf04Query) string {
+	if len(q.Filters) < 2 {
+		return ""
+	}
+	f0 := q.Filters[0]
+	var num, str bool
+	for _, f := range q.Filters[1:] {
+		if f.Key != f0.Key {
+			continue
+		}
+		if vf04IsNum(f.op()) {
+			num = true
+		} else {
+			str = true
+		}
+	}
+	switch {
+	case !vf04IsNum(f0.op()) && num:
+		return "+numeric-cond"
+	case str:
+		return "+string-cond"
+	}
+	return ""
+}
+
 // vf04GenQuery keeps out the query shapes that are single-search defect classes of C03
-// (several conditions on the first attribute other than a well-formed range, Base58
-// prefixes, split ID as a secondary requested attribute): C04 is about merging.
+// (several conditions on the first attribute other than a well-formed range or the
+// distribution-independent shapes of vf04GenMixedFirst, Base58 prefixes, split ID as a
+// secondary requested attribute): C04 is about merging.
 func vf04GenQuery(rng *rand.Rand, c *vf04Corpus) vf04Query {
+	if rng.IntN(6) == 0 {
+		return vf04GenMixedFirst(rng, c)
+	}
 	var q vf04Query
 	nf := []int{0, 1, 1, 1, 1, 2, 2, 2, 3, 3}[rng.IntN(10)]
 	pickKey := func() string {
@@ -610,10 +767,38 @@ func vf04NodeMerge(cnr cid.ID, nodes []*shard.Shard, q vf04Query) (vf04Searcher,
 	}, attrs
 }
 
+// vf04DiffOrders tells whether the first attribute values of a listing contain two integers
+// whose order as numbers differs from their order as texts, i.e. whether merging in the
+// order of the wrong index would be visible.
+func vf04DiffOrders(items []client.SearchResultItem) bool {
+	var nums []*big.Int
+	var txts []string
+	for _, it := range items {
+		if len(it.Attributes) == 0 {
+			return false
+		}
+		if n, ok := new(big.Int).SetString(it.Attributes[0], 10); ok {
+			nums, txts = append(nums, n), append(txts, it.Attributes[0])
+		}
+	}
+	for i := range nums {
+		for j := i + 1; j < len(nums); j++ {
+			if a, b := nums[i].Cmp(nums[j]), strings.Compare(txts[i], txts[j]); a != 0 && b != 0 && a != b {
+				return true
+			}
+		}
+	}
+	return false
+}
+
 func vf04PrimClass(q vf04Query, attrs []string) string {
 	if len(q.Filters) == 0 {
 		return "unfiltered"
 	}
+	return vf04PrimClass1(q, attrs) + vf04Mixed(q)
+}
+
+func vf04PrimClass1(q vf04Query, attrs []string) string {
 	if len(attrs) == 0 {
 		return "oid-order"
 	}
@@ -732,6 +917,12 @@ func TestVerif_C04(t *testing.T) {
 								}
 								r.Distinct(prim + "/" + mk + "|" + m.name + "|page=" + pc)
 								r.Seen("first_attribute_kinds", prim)
+								if mx := vf04Mixed(q); mx != "" && len(m.attrs) > 0 {
+									r.Count("nontrivial_listings_first_attribute"+mx, 1)
+									if vf04DiffOrders(want) {
+										r.Count("nontrivial_listings_first_attribute"+mx+"_text_and_numeric_order_differ", 1)
+									}
+								}
 							}
 							continue
 						}
@@ -758,6 +949,13 @@ func TestVerif_C04(t *testing.T) {
 				if ci == 0 && ep == 0 && qi < 3 {
 					r.Sample(map[string]any{"query": q, "single_search_items": len(want)})
 				}
+			}
+		}
+	}
+	if r.Violations() == 0 {
+		for _, k := range []string{"nontrivial_listings_first_attribute+numeric-cond_text_and_numeric_order_differ", "nontrivial_listings_first_attribute+string-cond_text_and_numeric_order_differ"} {
+			if r.Counter(k) == 0 {
+				r.Inconclusive("no merged listing observed for " + k)
 			}
 		}
 	}
